@@ -4,7 +4,7 @@ spec/Scopes.tla (link state machine, Resolve, Inline, Unser), ScopesMC.tla (univ
 exhaustive over application sequences), ScopesTrace.tla (recorded runs of a seeded random driver on
 bigger trees); harness/cmd/scopes.
 """
-import os, json
+import os, json, random
 from vlib import common
 
 SPECS = ["ScopesMC", "ScopesTrace"]
@@ -120,8 +120,9 @@ def consume(ctx, cases, results, stats, name):
                               dict(case=dict(case, only=[raw]), crash=res["crash"], input=raw,
                                    note="a finite input on a self-referential object graph kills the process",
                                    detail=res.get("detail", "")[:2500]))
-            if case["op"] == "tree" and raw is not None and len(case.get("skip", [])) < 6:
-                again.append(dict(case, skip=case.get("skip", []) + [raw], states=[]))
+            if raw is not None and not case.get("skip_loops"):
+                # once more without the inputs that can recurse forever: the rest of the case still counts
+                again.append(dict(case, skip_loops=True))
             continue
         r = res["res"]
         if r.get("harness_error") or r.get("harness_panic"):
@@ -132,6 +133,7 @@ def consume(ctx, cases, results, stats, name):
         stats["steps"] = stats.get("steps", 0) + r.get("steps", 0)
         stats["inputs"] = stats.get("inputs", 0) + r.get("inputs", 0)
         stats["deepest"] = max(stats.get("deepest", 0), r.get("deepest", 0))
+        stats["loop_inputs"] = stats.get("loop_inputs", 0) + r.get("loops", 0)
         for k in r.get("keys", []):
             ctx.distinct.add("rand/" + k)
         for m in r.get("mismatches", []):
@@ -150,15 +152,18 @@ def tree_key(c):
                                               for p in t["P"] if p["w"] != "none"))
 
 
-def run_tree_cases(ctx, cases, stats, name):
-    pending = cases
-    rounds = 0
-    while pending and rounds < 6:
-        results = run_driver(ctx, pending, name)
-        _, pending = consume(ctx, pending, results, stats, name)
-        rounds += 1
-    if pending:
-        ctx.note_drift("more than %d crashing inputs on one tree; remaining inputs of %d tree(s) not evaluated" % (rounds, len(pending)))
+def run_cases(ctx, cases, stats, name):
+    """runs the cases (shuffled: the expensive fatal ones spread over the shards); a case whose process died
+    on an input is run once more without the inputs that can recurse forever. Returns the traces."""
+    cases = list(cases)
+    random.Random(ctx.seed).shuffle(cases)
+    results = run_driver(ctx, cases, name)
+    traces, again = consume(ctx, cases, results, stats, name)
+    if again:
+        results = run_driver(ctx, again, name + "-again")
+        t2, _ = consume(ctx, again, results, stats, name)
+        traces += t2
+    return traces
 
 
 def validate_traces(ctx, runs, stats):
@@ -238,7 +243,7 @@ def run(ctx):
     for c in cases[:2]:
         ctx.sample(dict(tid=c["tid"], states=len(c["states"]), first_state=c["states"][0] if c["states"] else None,
                         raws=len(c["canon"]["raws"]) if c["canon"] else 0))
-    run_tree_cases(ctx, cases, stats, "mc")
+    run_cases(ctx, cases, stats, "mc")
     ctx.traces += ncalls
     stats["mc_trees"] = len(cases)
     stats["mc_calls_replayed"] = ncalls
@@ -252,15 +257,14 @@ def run(ctx):
     for c in cases2:
         c["states"] = []
         c["gen"] = dict(seed=ctx.seed, n=0, deep=[])
-    run_tree_cases(ctx, cases2, stats, "inl")
+    run_cases(ctx, cases2, stats, "inl")
     stats["inliner_checked_on_trees"] = len(cases2)
 
     # code -> spec: seeded random runs on bigger trees
     nruns = 1500 if thorough else 220
     rcases = [dict(op="rand", seed=ctx.seed * 100000 + i, size=1 + i % 3, n=(30 if thorough else 12),
                    deep=([50, 2000] if i % 4 == 0 else [])) for i in range(nruns)]
-    results = run_driver(ctx, rcases, "rand")
-    runs, _ = consume(ctx, rcases, results, stats, "rand")
+    runs = run_cases(ctx, rcases, stats, "rand")
     ctx.sample(rcases[0])
     validate_traces(ctx, runs, stats)
     stats["random_runs"] = nruns
